@@ -22,8 +22,11 @@ META = {
     "level_note": "The interpreter (traceback module) is the oracle for file, line and source text; marker lines and the trailing newline are not judged. SyntaxError, chained causes and notes are excluded by the statement and not generated.",
 }
 SPECDIR = SPECS / "tb"
-PATHS = {1: "/srv/app/mod.py", 2: "/srv/my app/é dir/mod 2.py", 3: "<string>", 4: "<frozen importlib._bootstrap>"}
-FUNCS = {1: "<module>", 2: "handler", 3: "<lambda>"}
+PATHS = {1: "/srv/app/mod.py", 2: "/srv/my app/é dir/mod 2.py", 3: "<string>", 4: "<frozen importlib._bootstrap>",
+         5: '/srv/odd", line 3, in name/mod.py'}           # a path that itself looks like the rest of a frame line
+FUNCS = {1: "<module>", 2: "handler", 3: "<lambda>", 4: "<listcomp>", 5: "größe_prüfen"}
+LINENO = {42: 123456}        # what the model's line-number / repeat-count codes stand for when not themselves
+REPS = {7: 996}
 TYPES = {1: "ValueError", 2: "pkg.mod.CustomError"}
 MSGL = {1: "something failed", 2: "bad value: 42: really", 3: "second line", 4: "", 5: "ünïcode ✓", 6: "    ^ expected an expression", 7: "^^^ here", 8: "    ", 9: "\t"}
 SRC = "result = compute(a, b)  # comment"
@@ -33,13 +36,13 @@ MARK = "    ~~~~~~~^^^^^^"
 def text_of(tb):
     lines = ["Traceback (most recent call last):"]
     for f in tb["frames"]:
-        lines.append('  File "%s", line %d, in %s' % (PATHS[f["path"]], f["lineno"], FUNCS[f["func"]]))
+        lines.append('  File "%s", line %d, in %s' % (PATHS[f["path"]], LINENO.get(f["lineno"], f["lineno"]), FUNCS[f["func"]]))
         if f["src"] >= 1:
             lines.append("    " + SRC)
         if f["src"] == 2:
             lines.append(MARK)
         if f.get("rep"):
-            lines.append("  [Previous line repeated %d more time%s]" % (f["rep"], "s" if f["rep"] > 1 else ""))
+            lines.append("  [Previous line repeated %d more time%s]" % (REPS.get(f["rep"], f["rep"]), "s" if f["rep"] > 1 else ""))
     msg = [MSGL[m] for m in tb["msg"]]
     lines.append(TYPES[tb["etype"]] + (": " + msg[0] if msg else ""))
     lines += msg[1:]
@@ -57,7 +60,7 @@ def run_text(row):
         except Exception as ex:
             bad.append((label, "from_string-raised:" + core.exc_name(ex), ""))
             continue
-        want_frames = [{"filepath": PATHS[f["path"]], "lineno": str(f["lineno"]), "funcname": FUNCS[f["func"]],
+        want_frames = [{"filepath": PATHS[f["path"]], "lineno": str(LINENO.get(f["lineno"], f["lineno"])), "funcname": FUNCS[f["func"]],
                         "source_line": SRC if f["src"] else ""} for f in tb["frames"]]
         got_frames = [{k: str(fr.get(k)) for k in ("filepath", "lineno", "funcname", "source_line")} for fr in pe.frames]
         if got_frames != want_frames:
@@ -77,7 +80,9 @@ def run_text(row):
 
 
 LEVEL_NAME = {1: "f%d", 2: "<lambda>", 3: "go", 4: "inner%d", 5: "gen%d", 6: "rec%d", 7: "modgen%d", 8: "deep%d"}
-NFR = {6: 2, 8: 7}        # frames a level contributes (default 1)
+def nfr(k, idx, L):
+    """frames a level of kind k at position idx (1-based) of a program of L levels contributes"""
+    return 2 if k == 6 else 3 + ((idx + L) % 4) if k == 8 else 1
 
 
 def chain_source(prog, exc):
@@ -95,7 +100,8 @@ def chain_source(prog, exc):
                   11: "    raise make_local_error()('class defined inside a function')",   # qualified name with <locals>
                   12: "    raise GeneratorExit()",
                   13: "    raise ValueError('expected a block after:\\n    ')",          # the message's last line is blanks only
-                  14: "    raise ValueError('ends with a line break\\n')"}[exc])
+                  14: "    raise ValueError('ends with a line break\\n')",
+                  15: "    raise ExceptionGroup('several things failed', [ValueError(1), KeyError('k')])"}[exc])     # printed as a tree by the interpreter
     nxt = "raiser"
     for idx in range(len(prog), 0, -1):
         k = prog[idx - 1]
@@ -115,12 +121,23 @@ def chain_source(prog, exc):
             lines += ["", "_nxt%d = %s" % (idx, nxt), "exec(compile('def modgen%d():\\n    return _nxt%d()', '<string>', 'exec'), globals())" % (idx, idx),
                       "%s = modgen%d" % (name, idx)]
         elif k == 8:
-            lines += ["", "def deep%d(n=6):" % idx, "    if n:", "        return deep%d(n - 1)" % idx, "    return %s()" % nxt, "%s = deep%d" % (name, idx)]
+            lines += ["", "def deep%d(n=%d):" % (idx, nfr(8, idx, len(prog)) - 1), "    if n:", "        return deep%d(n - 1)" % idx, "    return %s()" % nxt, "%s = deep%d" % (name, idx)]
         else:
             lines += ["", "def rec%d(n=1):" % idx, "    if n:", "        return rec%d(0)" % idx, "    return %s()" % nxt, "%s = rec%d" % (name, idx)]
         nxt = name
     lines += ["", "def entry():", "    return %s()" % nxt, ""]
     return "\n".join(lines)
+
+
+def collapse_runs(frames):
+    """the frames the interpreter's text shows: of a run of identical consecutive frames the first three (the rest is counted
+    in a "[Previous line repeated N more times]" line)"""
+    out = []
+    for f_ in frames:
+        if len(out) >= 3 and out[-1] == f_ and out[-2] == f_ and out[-3] == f_:
+            continue
+        out.append(f_)
+    return out
 
 
 _MARKER_RE = re.compile(r"^\s*[~^]+\s*$")
@@ -166,11 +183,11 @@ def run_chain(row, tmpdir, counter, reuse=False):
         want = []
         for idx, k in enumerate(prog, 1):
             nm = LEVEL_NAME[k] % idx if "%" in LEVEL_NAME[k] else LEVEL_NAME[k]
-            for _ in range(NFR.get(k, 1)):
+            for _ in range(nfr(k, idx, len(prog))):
                 want.append((nm, k not in (5, 7)))
         want = [("entry", True)] + want + [("raiser", True)]
         model_got = [(g[2], bool(g[3])) for g in got[1:]]
-        if model_got != want or [list(x) for x in [(f[0], f[1]) for f in row["frames"]]] != [[k, k not in (5, 7)] for k in prog for _ in range(NFR.get(k, 1))]:
+        if model_got != want or [list(x) for x in [(f[0], f[1]) for f in row["frames"]]] != [[k, k not in (5, 7)] for i_, k in enumerate(prog, 1) for _ in range(nfr(k, i_, len(prog)))]:
             bad.append(("chain", "frames-differ-from-model", {"got": model_got, "model": want}))
         interp = "".join(traceback.format_exception(et, ev, tb))
         if strip_markers(formatted) != strip_markers(interp):
@@ -178,16 +195,28 @@ def run_chain(row, tmpdir, counter, reuse=False):
         # the interpreter's own text (marker lines aside) read back by ParsedException
         from boltons.tbutils import ParsedException
         itext = "\n".join(l_ for l_ in interp.split("\n") if not _MARKER_RE.match(l_))     # the final line break stays
+        if exc == 15:
+            itext = None         # (the tree the interpreter prints for a group is not the standard one-exception format)
         try:
+            if itext is None:
+                raise StopIteration
             pe = ParsedException.from_string(itext)
             pframes = [(f_["filepath"], str(f_["lineno"]), f_["funcname"], f_["source_line"].strip()) for f_ in pe.frames]
             rframes = [(a, str(b), c, d_) for a, b, c, d_ in ref]
             if pe.exc_msg != str(ev) or pe.exc_type.split(".")[-1] != et.__name__:
                 bad.append(("chain", "from_string(interpreter text): exc_msg/exc_type", {"exc_type": pe.exc_type, "exc_msg": pe.exc_msg, "str(exception)": str(ev)}))
-            elif 8 not in prog and 6 not in prog and pframes != rframes:
+            elif pframes != collapse_runs(rframes):
                 bad.append(("chain", "from_string(interpreter text): frames", {"parsed": pframes, "traceback": rframes}))
             elif pe.to_string().rstrip("\n") != itext.rstrip("\n"):
                 bad.append(("chain", "from_string(interpreter text): to_string", {"to_string": pe.to_string(), "text": itext}))
+            elif interp != itext:
+                # the same text with the interpreter's own position-marker lines left in: same frames, type and message
+                pe2 = ParsedException.from_string(interp)
+                if [dict(f_) for f_ in pe2.frames] != [dict(f_) for f_ in pe.frames] or pe2.exc_msg != pe.exc_msg or pe2.exc_type != pe.exc_type:
+                    bad.append(("chain", "from_string(interpreter text with marker lines)", {"with_markers": [dict(f_) for f_ in pe2.frames], "without": [dict(f_) for f_ in pe.frames],
+                                                                                             "exc_msg": pe2.exc_msg}))
+        except StopIteration:
+            pass
         except Exception as ex:
             bad.append(("chain", "from_string(interpreter text) raised:" + core.exc_name(ex), str(ex)[:200]))
         d = ei.to_dict()
